@@ -113,6 +113,10 @@ func genLinkTarget(r *RNG, linkPath string, existing []string) string {
 	case 7: // dangling absolute
 		return "/" + r.Pick(namePool) + "/missing"
 	case 8: // sibling name (possibly created later, possibly itself: a loop)
+		if r.Chance(1, 4) {
+			// through an existing entry and back up again (".." inside the text)
+			return relPath(dir, pickExisting()) + "/../" + r.Pick(namePool)
+		}
 		return r.Pick(namePool)
 	default: // parent-relative (climbing out of the tree's root only rarely)
 		if dir == "/" && !r.Chance(1, 8) {
